@@ -2,6 +2,7 @@ package verifsim
 
 import (
 	"fmt"
+	"os"
 	"runtime"
 	"sync"
 	"testing"
@@ -56,6 +57,7 @@ type Sim struct {
 	Horizon  time.Duration // simulated-time budget of the run
 	Start    time.Time
 
+	tmu     sync.Mutex // guards tasks (Attach may run on a goroutine of the system)
 	tasks   []*Task
 	sources []Source
 	wake    chan struct{}
@@ -112,7 +114,9 @@ func (s *Sim) violation() *Violation {
 // "panic").
 func (s *Sim) Go(name, prop string, f func(tk *Task)) *Task {
 	tk := &Task{Name: name, sim: s, grant: make(chan struct{})}
+	s.tmu.Lock()
 	s.tasks = append(s.tasks, tk)
+	s.tmu.Unlock()
 	go func() {
 		defer func() {
 			r := recover()
@@ -133,6 +137,29 @@ func (s *Sim) Go(name, prop string, f func(tk *Task)) *Task {
 	}()
 	return tk
 }
+
+// Attach registers the calling goroutine (one the system under test created,
+// e.g. an http.Handler invocation) as a task. The goroutine calls Step before
+// each scripted operation and must call Finish when its script is over.
+func (s *Sim) Attach(name string) *Task {
+	tk := &Task{Name: name, sim: s, grant: make(chan struct{})}
+	s.tmu.Lock()
+	s.tasks = append(s.tasks, tk)
+	s.tmu.Unlock()
+	return tk
+}
+
+// Finish marks an attached task as done.
+func (tk *Task) Finish() {
+	tk.mu.Lock()
+	tk.done = true
+	tk.waiting = ""
+	tk.mu.Unlock()
+	tk.sim.Wake()
+}
+
+// IsAbort reports whether a recovered panic value is the scheduler's abort signal.
+func IsAbort(r any) bool { _, ok := r.(abortTask); return ok }
 
 // Step parks the task until the scheduler grants its next operation.
 func (tk *Task) Step(label string) {
@@ -167,8 +194,14 @@ func (tk *Task) Parked() string {
 	return tk.waiting
 }
 
+func (s *Sim) taskList() []*Task {
+	s.tmu.Lock()
+	defer s.tmu.Unlock()
+	return append([]*Task(nil), s.tasks...)
+}
+
 func (s *Sim) AllTasksDone() bool {
-	for _, tk := range s.tasks {
+	for _, tk := range s.taskList() {
 		if !tk.Done() {
 			return false
 		}
@@ -179,7 +212,7 @@ func (s *Sim) AllTasksDone() bool {
 // PendingTasks lists tasks that have not finished, with where they are.
 func (s *Sim) PendingTasks() []string {
 	var out []string
-	for _, tk := range s.tasks {
+	for _, tk := range s.taskList() {
 		tk.mu.Lock()
 		if !tk.done {
 			if tk.waiting != "" {
@@ -195,7 +228,7 @@ func (s *Sim) PendingTasks() []string {
 
 func (s *Sim) enabled(now time.Time) []Event {
 	var evs []Event
-	for _, tk := range s.tasks {
+	for _, tk := range s.taskList() {
 		tk.mu.Lock()
 		w := tk.waiting
 		tk.mu.Unlock()
@@ -313,7 +346,7 @@ func (s *Sim) Sleep(d time.Duration) {
 // goroutines exit; tasks blocked inside an operation must be unblocked by the
 // engine (close the connection, cancel the context) before or after this call.
 func (s *Sim) Abort() {
-	for _, tk := range s.tasks {
+	for _, tk := range s.taskList() {
 		tk.mu.Lock()
 		s.aborting = true
 		parked := tk.waiting != ""
@@ -327,6 +360,20 @@ func (s *Sim) Abort() {
 		}
 	}
 	synctest.Wait()
+}
+
+// Drain aborts parked tasks repeatedly, letting simulated time pass in between,
+// until every task goroutine has exited (tasks sleeping or blocked on timers
+// need time to advance). It reports whether all tasks finished.
+func (s *Sim) Drain() bool {
+	for i := 0; i < 200; i++ {
+		s.Abort()
+		if s.AllTasksDone() {
+			return true
+		}
+		time.Sleep(time.Duration(i+1) * 100 * time.Millisecond)
+	}
+	return s.AllTasksDone()
 }
 
 // Elapsed returns the simulated time since the run started.
@@ -354,6 +401,12 @@ func Bubble(t *testing.T, f func()) (deadlock string) {
 				}
 			}()
 			f()
+			if os.Getenv("VERIF_DEBUG_STACKS") != "" {
+				synctest.Wait()
+				buf := make([]byte, 1<<18)
+				buf = buf[:runtime.Stack(buf, true)]
+				fmt.Printf("VERIF-DEBUG stacks at end of bubble:\n%s\n", buf)
+			}
 		})
 	}()
 	if rootPanic != nil {
